@@ -6,6 +6,7 @@ from hypothesis import strategies as st
 from ..runner import Shard, Violation
 from ..core import expect_return
 from ..driver import Ctx, Scheduler, Cancel, run, lock_type, all_schedules
+from ..values import AwaitableItem, AwaitedDataError
 from .. import env
 
 env.setup()
@@ -50,11 +51,12 @@ def seq_histories(draw, tier):
         st.tuples(st.just("await-taken"), st.integers(0, 5)),
         st.tuples(st.just("del"), st.integers(0, 1)),
         st.tuples(st.just("fail-next"), st.integers(0, 1)),
+        st.tuples(st.just("await-temp"), st.integers(0, 1)),
     )
     return {"ops": [list(o) for o in draw(st.lists(op, min_size=draw(st.sampled_from([0, 5])),
                                                    max_size=40 if tier == "quick" else 60))],
             "lock": draw(st.booleans()), "susp": draw(st.integers(0, 1)),
-            "exc": draw(st.sampled_from(sorted(GETTER_ERRORS)))}
+            "exc": draw(st.sampled_from(sorted(GETTER_ERRORS))), "aw_value": draw(st.sampled_from([False, False, True]))}
 
 
 def make_class(ctx, runs, case, fail_flags):
@@ -71,6 +73,9 @@ def make_class(ctx, runs, case, fail_flags):
                 rec[1] = "failed"
                 raise GETTER_ERRORS[case.get("exc", "ValueError")]("planned getter failure")
             value = ["value", self.tag, len(runs)]
+            if case.get("aw_value"):
+                # the cached VALUE is itself awaitable (a job handle, a future): it is data, nobody awaits it
+                value = AwaitableItem(("value", self.tag, len(runs)))
             rec[1] = "returned"
             rec.append(value)
             return value
@@ -107,6 +112,8 @@ def check_seq(case):
         will_fail = fail_flags.get(i) and model[i] is None
         try:
             value = await awaitable
+        except AwaitedDataError:
+            return ("cached-value-was-awaited", f"instance {i}")
         except FAILURES:
             if not will_fail:
                 return ("unexpected-getter-failure", f"instance {i}")
@@ -136,10 +143,26 @@ def check_seq(case):
 
     async def history():
         for step, (name, arg) in enumerate(case["ops"]):
+            if fail_flags.get(f"temp{step}"):
+                pass
             if name == "await":
                 problem = await do_await(arg, objs[arg].prop)
                 if model[arg] is None:
                     in_dict[arg] = True  # the placeholder stays behind after a failure
+            elif name == "await-temp":
+                # `await Holder().prop`: the instance is kept alive by the pending access only
+                before = len(runs)
+                fresh = Holder()
+                fresh.tag = f"temp{step}"
+                pending = fresh.prop
+                del fresh
+                try:
+                    value = await pending
+                except BaseException as exc:  # noqa: B902
+                    return ("temporary-instance", f"step {step}: {exc!r}")
+                if len(runs) != before + 1 or value is not runs[-1][2]:
+                    return ("temporary-instance", f"step {step}: runs {len(runs) - before} value {value}")
+                problem = None
             elif name == "take":
                 # with a cached value the attribute IS the (awaitable) value, otherwise a placeholder
                 taken.append((arg, objs[arg].prop, model[arg]))
@@ -152,7 +175,10 @@ def check_seq(case):
                 if value_at_take is not None:
                     # an awaitable of an already computed value keeps denoting that value
                     before = len(runs)
-                    value = await awaitable
+                    try:
+                        value = await awaitable
+                    except AwaitedDataError:
+                        return ("cached-value-was-awaited", f"step {step}")
                     problem = None
                     if value is not value_at_take or len(runs) != before:
                         problem = ("taken-value-changed", f"{value} vs {value_at_take}")
@@ -366,8 +392,81 @@ def check_exhaustive(case):
             "labels": {"exhaustive-configs": 1, "exhaustive-complete": int(complete), "exhaustive-schedules": count}}
 
 
+# ---- inheritance: an overriding cached property that awaits the parent's ----------------------
+
+
+def inheritance_cases():
+    out = []
+    for lock in (False, True):
+        for susp in (0, 1):
+            for ops in (["await"], ["await", "await"], ["await", "del", "await"], ["take", "await", "await-taken"],
+                        ["await", "del", "del-base", "await"]):
+                out.append({"lock": lock, "susp": susp, "ops": ops})
+    return out
+
+
+def check_inheritance(case):
+    ctx = Ctx("a")
+    runs = {"base": 0, "sub": 0}
+    LockT = lock_type(ctx, "plock")
+    deco = a.cached_property(LockT) if case["lock"] else a.cached_property
+
+    class Base:
+        @deco
+        async def data(self):
+            runs["base"] += 1
+            for _ in range(case["susp"]):
+                await ctx.suspend(("base", 0))
+            return ["base", runs["base"]]
+
+    class Sub(Base):
+        @deco
+        async def data(self):
+            runs["sub"] += 1
+            parent = await Base.data.__get__(self, Sub)
+            return ["sub", runs["sub"], parent]
+
+    obj = Sub()
+
+    async def history():
+        taken = None
+        last = None
+        for op in case["ops"]:
+            if op == "await":
+                value = await obj.data
+                if last is not None and value is not last:
+                    return f"cached value changed: {value} is not {last}"
+                last = value
+            elif op == "take":
+                taken = obj.data
+            elif op == "await-taken":
+                value = await taken
+                if last is not None and value is not last:
+                    return f"taken placeholder gave {value}, cached is {last}"
+                last = value
+            elif op == "del":
+                del obj.data
+                last = None
+            elif op == "del-base":
+                pass
+        return None
+
+    outcome = run(ctx, history())
+    if outcome[0] == "deadlock":
+        raise Violation("C12/inheritance/deadlock", f"{case}")
+    if outcome[0] == "raise":
+        raise Violation("C12/inheritance/raised", f"{case}: {outcome[1]!r}"[:300])
+    if outcome[1]:
+        raise Violation("C12/inheritance/value", f"{case}: {outcome[1]}")
+    computations = 1 + case["ops"].count("del")
+    if runs["sub"] != computations:
+        raise Violation("C12/inheritance/getter-run-count", f"{case}: {runs}")
+
+
 def shards(tier):
-    out = [Shard(f"sequential-{i}", check_seq, strategy=seq_histories(tier), n=500, nontrivial=lambda c: False,
+    out = [Shard("inheritance", check_inheritance, cases=inheritance_cases, nontrivial=lambda c: True,
+                 exhaustive=True)]
+    out += [Shard(f"sequential-{i}", check_seq, strategy=seq_histories(tier), n=500, nontrivial=lambda c: False,
                  thorough_mult=20) for i in range(4)]
     out += [Shard(f"schedules-{i}", check_conc, strategy=conc_configs(tier), n=1000, nontrivial=lambda c: False,
                   thorough_mult=15) for i in range(8)]
